@@ -41,6 +41,7 @@ def parseOp (s : String) : Option Op :=
   | ["rmi"] => some .rmi
   | ["bl"] => some .bl
   | ["it"] => some .it
+  | ["itk", k] => k.toNat?.map .itk
   | ["si", p] => p.toNat?.map .si
   | ["sw", t, p] => do
     let t ← t.toNat?
